@@ -48,7 +48,13 @@ func (p *Program) Print(o PrintOpts) string {
 		printStmts(&sb, f.Body, 1)
 		sb.WriteString("}\n")
 	}
+	if p.Acc {
+		sb.WriteString("$acc = [];\n")
+	}
 	printStmts(&sb, p.Main, 0)
+	if p.Acc {
+		sb.WriteString("echo implode(\",\", $acc), \"#\";\n")
+	}
 	return sb.String()
 }
 
@@ -71,6 +77,8 @@ func printStmt(sb *strings.Builder, s Stmt, d int) {
 		} else {
 			fmt.Fprintf(sb, "%s$%s%s;\n", in, x.V.Name, x.Op)
 		}
+	case *Collect:
+		fmt.Fprintf(sb, "%s$acc[] = %s;\n", in, ExprString(x.E))
 	case *Echo:
 		var parts []string
 		for _, a := range x.Args {
